@@ -753,13 +753,17 @@ func (f cFile) commentSeq() []string {
 	for _, s := range f.stmts {
 		switch s.kind {
 		case 'C':
-			if t := strings.TrimSpace(s.text); t != "" {
-				l = append(l, "C:"+t)
-			}
+			l = append(l, "C:"+strings.TrimSpace(s.text))
 		case 'T':
+			// a docstring is its trimmed text; a blank comment line above a task is a comment that must stay where it is, whether
+			// or not the implementation calls it a docstring
 			d := "-"
 			if s.hasDoc {
-				d = "+" + strings.TrimSpace(s.doc)
+				if t := strings.TrimSpace(s.doc); t != "" {
+					d = "+" + t
+				} else {
+					l = append(l, "C:")
+				}
 			}
 			l = append(l, "T:"+s.name+":"+d)
 		default:
@@ -777,7 +781,7 @@ func scanFormatted(t string) []string {
 	var l []string
 	pending, havePending := "", false
 	flush := func() {
-		if havePending && pending != "" {
+		if havePending {
 			l = append(l, "C:"+pending)
 		}
 		havePending = false
@@ -797,7 +801,7 @@ func scanFormatted(t string) []string {
 				j = len(t) - i
 			}
 			line := t[i+1 : i+j]
-			pending, havePending = strings.TrimSpace(line), line != ""
+			pending, havePending = strings.TrimSpace(line), true
 			i += j + 1
 			if i > len(t) {
 				i = len(t)
@@ -812,10 +816,11 @@ func scanFormatted(t string) []string {
 			}
 			name := strings.TrimSpace(strings.SplitN(t[i+5:j], "(", 2)[0])
 			d := "-"
-			if havePending {
+			if havePending && pending != "" {
 				d = "+" + pending
 				havePending = false
 			}
+			flush() // a blank comment line above the task: a comment in its place, not a docstring text
 			l = append(l, "T:"+name+":"+d)
 			if k := strings.Index(t[j:], "\n}\n"); k >= 0 {
 				i = j + k + 3
